@@ -264,6 +264,12 @@ func checkC05(c *Ctx) error {
 		o.NoGlobals = i%3 == 0
 		conf := gen.Behaviour(r, o)
 		ops := StdOps(conf, r, true)
+		if i%4 == 1 {
+			var ok bool
+			if ops, ok = runtimeDecoratorOps(conf, ops, r); ok {
+				c.Add("histories_with_a_decorator_registered_at_run_time", 1)
+			}
+		}
 		if o.NoGlobals {
 			// "once per container": two more containers built by the same constructor function share nothing they hand out
 			// (only where no service is a package-level variable of the fixtures)
